@@ -7,6 +7,8 @@ mod sched;
 mod strategies;
 mod vptr;
 mod seq;
+mod serde_check;
+mod traits;
 
 use std::io::{BufRead, BufWriter, Write};
 use std::sync::mpsc;
